@@ -1,4 +1,25 @@
+//! hfull: correspondence + oracle runs; sub-command `cXX` or `cXX-<variant>` selects the module.
+mod props;
+use hcommon::{install_panic_hook, parse_args};
+
 fn main() {
-    eprintln!("hfull: no property implemented yet");
-    std::process::exit(2);
+    install_panic_hook();
+    let args = parse_args();
+    let key = args.prop.split('-').next().unwrap_or("").to_string();
+    match key.as_str() {
+        "c02" => props::c02::run(&args),
+        "c04" => props::c04::run(&args),
+        "c05" => props::c05::run(&args),
+        "c06" => props::c06::run(&args),
+        "c13" => props::c13::run(&args),
+        "c14" => props::c14::run(&args),
+        "c15" => props::c15::run(&args),
+        "c16" => props::c16::run(&args),
+        "c19" => props::c19::run(&args),
+        "c20" => props::c20::run(&args),
+        p => {
+            eprintln!("hfull: unknown property {}", p);
+            std::process::exit(2);
+        }
+    }
 }
